@@ -171,6 +171,19 @@ class C18(F.Check):
             mon.problems.append(('no-termination', 'horizon'))
         return run, mon, stream
 
+    def run_exact(self, tls, bursts, stream):
+        mon = Monitor(bursts, stream, tls)
+        world = W.World(mon.server, max_waits=400)
+        with world:
+            ws = W.L_websocket.WebSocket('wss://example.com/x' if tls else 'ws://example.com/x', proxies={})
+            world._ws = ws
+            run = W.drive(world, ws, ws.connect(poll=60, ping_rate=0, close_timeout=None), max_events=5000)
+            if world.conns:
+                mon.check(world, world.conns[-1], 'end')
+        if run.escaped is not None:
+            mon.problems.append(('exception-escaped', repr(run.escaped)))
+        return run, mon, stream
+
     def shapes(self, tier, B):
         sizes = [1, B - 1, B, B + 1, 2 * B + 1]
         nb, nr = (3, 2) if tier == 'thorough' else (2, 3)
@@ -194,6 +207,15 @@ class C18(F.Check):
                 for off in (0, 3, 6):
                     run, mon, stream = self.run_pattern(tls, bursts, off, 65536, big=20000)
                     self.account(res, {'real': True, 'tls': tls, 'bursts': bursts, 'offset': off}, mon, run)
+            # a large frame that is the very last thing available: sizes around and at multiples of 32 KiB / 64 KiB
+            for tls in (False, True):
+                for size in (32768, 65535, 65536, 65537, 98304, 131072, 16384 * 5):
+                    stream = SFrame(TEXT, b'x').encode() + SFrame(BINARY, bytes(i & 0xFF for i in range(size))).encode() + SFrame(PING, b'last').encode()
+                    for cut_last in (False, True):
+                        data = stream if not cut_last else stream[:-len(SFrame(PING, b'last').encode())]
+                        sizes = [16384] * (len(data) // 16384) + ([len(data) % 16384] if len(data) % 16384 else []) if tls else [len(data)]
+                        run, mon, _ = self.run_exact(tls, [(0, sizes)], data)
+                        self.account(res, {'real': True, 'exact': size, 'tls': tls, 'bursts': [(0, sizes)], 'offset': 0, 'cut_last': cut_last}, mon, run)
             res.samples.append({'real_pattern': pats[3], 'events': len(run.world.events)})
             return res
         B = 8
@@ -226,7 +248,13 @@ class C18(F.Check):
 
     def replay(self, case, verbose=True):
         bursts = [(g, list(s)) for g, s in case['bursts']]
-        if case.get('real'):
+        if case.get('exact'):
+            size = case['exact']
+            stream = SFrame(TEXT, b'x').encode() + SFrame(BINARY, bytes(i & 0xFF for i in range(size))).encode() + SFrame(PING, b'last').encode()
+            if case.get('cut_last'):
+                stream = stream[:-len(SFrame(PING, b'last').encode())]
+            run, mon, stream = self.run_exact(case['tls'], bursts, stream)
+        elif case.get('real'):
             run, mon, stream = self.run_pattern(case['tls'], bursts, case['offset'], 65536, big=20000)
         else:
             run, mon, stream = self.run_pattern(case['tls'], bursts, case['offset'], case['B'])
